@@ -215,3 +215,134 @@ Proof.
   rewrite S, V. intro F. inversion F as [|x l H _].
   destruct H as [H|H]; vm_compute in H; discriminate.
 Qed.
+
+(* ---- keep-alives during negotiation ---- *)
+Lemma stamp_typ : forall cfg v m, m_typ (stamp cfg v m) = m_typ m.
+Proof.
+  intros. unfold stamp. destruct (is_neg_type (m_typ m)); [reflexivity|].
+  destruct (_ || _); reflexivity.
+Qed.
+
+Lemma ack_stamped : forall cfg v, stamp cfg v ack_message = mkMsg v MsgKeepAliveAck [].
+Proof.
+  intros. unfold stamp, ack_message. cbn [m_typ m_ver m_payload].
+  replace (is_neg_type MsgKeepAliveAck) with false by reflexivity.
+  rewrite orb_true_r. reflexivity.
+Qed.
+
+Lemma neg_only_acks : forall cfg v k, neg_frames_only (acks cfg v k) = [].
+Proof.
+  intros. unfold acks. rewrite ack_stamped. induction k; [reflexivity|].
+  cbn [repeat]. unfold neg_frames_only in *. cbn [filter m_typ].
+  replace (is_neg_type MsgKeepAliveAck) with false by reflexivity. assumption.
+Qed.
+
+Lemma neg_only_stamped_neg : forall cfg v t p rest, is_neg_type t = true ->
+  neg_frames_only (stamp cfg v (new_message cfg t p) :: rest)
+  = stamp cfg v (new_message cfg t p) :: neg_frames_only rest.
+Proof.
+  intros. unfold neg_frames_only. cbn [filter]. rewrite stamp_typ.
+  unfold new_message. cbn [m_typ]. rewrite H. reflexivity.
+Qed.
+
+(* keep-alives change neither the outcome, nor the version, nor the negotiation messages *)
+Lemma ka_same_result : forall cfg cmax k1 k2 r1 r2,
+  let a := negotiate_ka cfg cmax k1 k2 r1 r2 in
+  let b := negotiate cfg cmax r1 r2 in
+  n_outcome a = n_outcome b /\ n_version a = n_version b /\
+  neg_frames_only (n_frames a) = n_frames b.
+Proof.
+  intros cfg cmax k1 k2 r1 r2. cbv zeta. unfold negotiate_ka, negotiate.
+  destruct (cmax <=? V1_0_1); [repeat split|].
+  destruct (get_supported r1) as [[cur mx]|].
+  - destruct (cur =? _).
+    + cbn [n_outcome n_version n_frames]. repeat split.
+      rewrite neg_only_stamped_neg by reflexivity. rewrite neg_only_acks. reflexivity.
+    + cbn [n_outcome n_version n_frames].
+      assert (F : forall o, n_frames (if set_accepted r2
+                   then mkRes [stamp cfg cmax (new_message cfg MsgGetSupportedVersion []);
+                               stamp cfg (if mx <? cmax then mx else cmax)
+                                 (new_message cfg MsgSetProtocolVersion [if mx <? cmax then mx else cmax])] Proceeds o
+                   else mkRes [stamp cfg cmax (new_message cfg MsgGetSupportedVersion []);
+                               stamp cfg (if mx <? cmax then mx else cmax)
+                                 (new_message cfg MsgSetProtocolVersion [if mx <? cmax then mx else cmax])] Fails o)
+                 = [stamp cfg cmax (new_message cfg MsgGetSupportedVersion []);
+                    stamp cfg (if mx <? cmax then mx else cmax)
+                      (new_message cfg MsgSetProtocolVersion [if mx <? cmax then mx else cmax])])
+        by (intro; destruct (set_accepted r2); reflexivity).
+      split; [destruct (set_accepted r2); reflexivity|].
+      split; [destruct (set_accepted r2); reflexivity|].
+      rewrite F. rewrite neg_only_stamped_neg by reflexivity.
+      unfold neg_frames_only at 1. rewrite filter_app. fold (neg_frames_only (acks cfg cmax k1)).
+      rewrite neg_only_acks. cbn [app].
+      fold (neg_frames_only (stamp cfg (if mx <? cmax then mx else cmax)
+              (new_message cfg MsgSetProtocolVersion [if mx <? cmax then mx else cmax])
+              :: acks cfg (if mx <? cmax then mx else cmax) k2)).
+      rewrite neg_only_stamped_neg by reflexivity. rewrite neg_only_acks. reflexivity.
+  - cbn [n_outcome n_version n_frames]. repeat split.
+    rewrite neg_only_stamped_neg by reflexivity. rewrite neg_only_acks. reflexivity.
+Qed.
+
+(* every frame written during negotiation is a negotiation message at 1.1 or an acknowledgement
+   carrying the version in use at that moment: the configured maximum or the chosen version *)
+Definition neg_phase_frame_ok (cmax v : version) (f : frame) : Prop :=
+  (is_neg_type (m_typ f) = true /\ m_ver f = V1_1) \/
+  (m_typ f = MsgKeepAliveAck /\ (m_ver f = cmax \/ m_ver f = v)).
+
+Lemma acks_ok : forall cfg cmax v w k, (w = cmax \/ w = v) ->
+  Forall (neg_phase_frame_ok cmax v) (acks cfg w k).
+Proof.
+  intros. unfold acks. rewrite ack_stamped. induction k; constructor; [|assumption].
+  right. split; [reflexivity|exact H].
+Qed.
+
+Lemma neg_frame_ok : forall cfg cmax v w t p, is_neg_type t = true ->
+  neg_phase_frame_ok cmax v (stamp cfg w (new_message cfg t p)).
+Proof.
+  intros. left. unfold stamp, new_message. cbn [m_typ m_ver]. rewrite H. split; [assumption|reflexivity].
+Qed.
+
+Lemma ka_frames_ok : forall cfg cmax k1 k2 r1 r2,
+  let r := negotiate_ka cfg cmax k1 k2 r1 r2 in
+  Forall (neg_phase_frame_ok cmax (n_version r)) (n_frames r).
+Proof.
+  intros cfg cmax k1 k2 r1 r2. cbv zeta. unfold negotiate_ka.
+  destruct (cmax <=? V1_0_1); [constructor|].
+  destruct (get_supported r1) as [[cur mx]|].
+  - destruct (cur =? _); cbn [n_frames n_version].
+    + constructor; [apply neg_frame_ok; reflexivity|apply acks_ok; left; reflexivity].
+    + constructor; [apply neg_frame_ok; reflexivity|].
+      apply Forall_app. split; [apply acks_ok; left; reflexivity|].
+      constructor; [apply neg_frame_ok; reflexivity|apply acks_ok; right; reflexivity].
+  - cbn [n_frames n_version].
+    constructor; [apply neg_frame_ok; reflexivity|apply acks_ok; left; reflexivity].
+Qed.
+
+Lemma write_later_ok : forall cfg v ls, conforming cfg = true ->
+  Forall (fun f => m_ver f = v \/ is_neg_type (m_typ f) = true) (write_later cfg v ls).
+Proof.
+  intros cfg v ls C. unfold write_later. apply Forall_forall. intros f Hin.
+  apply in_map_iff in Hin. destruct Hin as [l [E _]]. subst f.
+  destruct (ordinary l) eqn:O.
+  - left. apply stamp_ordinary; assumption.
+  - right. destruct l as [t p|]; [|discriminate]. cbn [ordinary] in O.
+    apply negb_false_iff in O. unfold stamp, build, new_message. cbn [m_typ]. rewrite O.
+    assumption.
+Qed.
+
+Lemma later_frames_negotiated_ka_l : forall cfg cmax k1 k2 r1 r2 ls, conforming cfg = true ->
+  let s := session_ka cfg cmax k1 k2 r1 r2 ls in
+  Forall (fun f => m_ver f = n_version (fst s) \/ is_neg_type (m_typ f) = true) (snd s).
+Proof.
+  intros cfg cmax k1 k2 r1 r2 ls C. unfold session_ka. cbn [fst snd].
+  destruct (n_outcome _); [|constructor]. apply write_later_ok. assumption.
+Qed.
+
+(* at whatever position of the later traffic an acknowledgement falls — first frame after
+   negotiation, between requests, last — it carries the negotiated version; every configuration *)
+Lemma later_acks_everywhere : forall cfg v ls i, nth_error ls i = Some Ack ->
+  nth_error (write_later cfg v ls) i = Some (mkMsg v MsgKeepAliveAck []).
+Proof.
+  intros. unfold write_later. erewrite map_nth_error by eassumption.
+  cbn [build]. rewrite ack_stamped. reflexivity.
+Qed.
